@@ -340,3 +340,50 @@ pub fn transport_is_zero_time(sc: &ConnScenario) -> bool {
     use crate::pipe::{Gate, WRule};
     sc.client.cuts.iter().all(|c| matches!(c.gate, Gate::Now)) && sc.wplan.iter().all(|w| matches!(w, WRule::Accept { .. } | WRule::Spurious))
 }
+
+/// A write fault aimed at one Keep Alive of the undisturbed execution `refo`: every earlier write call is
+/// accepted whole, the call that carries the Keep Alive is held back - entirely or after a few bytes -
+/// until the back-end call running at that moment completes (so the future writing it is dropped
+/// mid-write) or for up to three seconds. Returns false if the execution has no Keep Alive.
+pub fn aim_hold_at_keep_alive(rng: &mut Rng, sc: &mut ConnScenario, refo: &ConnOutcome) -> bool {
+    use crate::pipe::WRule;
+    let kas: Vec<usize> = refo.view.packets.iter().enumerate().filter(|(_, p)| p.kind == "KeepAlive").map(|(i, _)| i).collect();
+    if kas.is_empty() {
+        return false;
+    }
+    let ki = *rng.pick(&kas);
+    let off: usize = refo.view.packets[..ki].iter().map(|p| p.len + crate::codec::varint(p.len as i32).len()).sum();
+    let (mut acc, mut call) = (0usize, 0usize);
+    for (_, chunk) in &refo.pipe.out {
+        if acc + chunk.len() > off {
+            break;
+        }
+        acc += chunk.len();
+        call += 1;
+    }
+    sc.wplan.clear();
+    for _ in 0..call {
+        sc.wplan.push(WRule::Accept { max: 1_000_000 });
+    }
+    if rng.chance(1, 2) {
+        sc.wplan.push(WRule::Accept { max: rng.range(1, 9) as usize });
+    }
+    let t_ka = refo.view.packets[ki].t_ns;
+    let next_done = ["discovery", "filter", "strategy"]
+        .iter()
+        .filter_map(|n| refo.log.iter().find(|e| e.actor == format!("svc:{n}") && e.kind == "done").map(|e| (format!("{n}_done"), e.t_ns)))
+        .filter(|(_, t)| *t > t_ka && *t - t_ka < secs(10))
+        .min_by_key(|(_, t)| *t);
+    match next_done {
+        Some((name, _)) if rng.chance(3, 4) => sc.wplan.push(WRule::PendEvent { name, ns: *rng.pick(&[0u64, 1_000_000, 700_000_000]) }),
+        _ => sc.wplan.push(WRule::Pend { ns: ms(rng.range(1, 3000)) }),
+    }
+    true
+}
+
+/// True when the write plan is a hold of the kind `aim_hold_at_keep_alive` makes (bounded, so a prompt client stays prompt).
+pub fn wplan_is_bounded_hold(sc: &ConnScenario) -> bool {
+    use crate::pipe::WRule;
+    let hold: u64 = sc.wplan.iter().map(|w| match w { WRule::Pend { ns } => *ns, WRule::PendEvent { ns, .. } => secs(10) + *ns, _ => 0 }).sum();
+    sc.wplan.iter().all(|w| matches!(w, WRule::Accept { .. } | WRule::Pend { .. } | WRule::PendEvent { .. } | WRule::Spurious)) && hold <= secs(14)
+}
